@@ -217,6 +217,7 @@ def check(ctx):
     # ... and what is handed to exec is that directory followed by argv[0] as given, not edited after composition (C03.P4b; the rule
     # includes P4g)
     c03.prepend_rules(ctx, prog)
+    child_exit_rule(ctx, prog, "C04.E6")       # a failed child reports and vanishes: it runs none of the application's exit handlers
     ctx.floor("C04.E1", 20)
     ctx.floor("C04.E3", 2)
     ctx.floor("C04.E5", 2)
